@@ -999,7 +999,8 @@ class Interp:
         if k == 'discriminant':
             v = self.place(r[1], frame).v
             if isinstance(v, Agg) and v.variant is not None:
-                return SInt(v.variant, 'isize')
+                # negative discriminants (Ordering::Less = -1) are matched by their raw i8 bits in switchInt
+                return SInt(v.variant if v.variant >= 0 else v.variant + 256, 'isize')
             if isinstance(v, Closure):
                 return SInt(v.state, 'u32')
             raise Unsupported('discriminant of %r' % (v,))
